@@ -6,6 +6,9 @@ C40 — Bedrock players get valid, stable Java identities.
 Property theorems only.
   * `name_valid`             : for EVERY input string (every gamertag under every username format) the profile
                                name is 1..16 bytes, all from A-Z a-z 0-9 `_`;
+  * `profile_name_valid`     : the same for the name `onGameProfile` builds, for ALL formats and gamertags with
+                               `fmt.Sprintf` an arbitrary function; `profile_name_affix`: for `prefix%ssuffix` the
+                               format's literals count against the 16 like the gamertag; `profile_name_deterministic`;
   * `name_shape`             : it is the first 16 runes mapped rune-wise (`_` for anything else), `_` if empty;
   * `name_stable`            : a name that is already a valid Java name is returned unchanged (idempotence follows);
   * `uuid_rfc4122`           : for every XUID: 16 bytes, version nibble 5, variant `10`;  `uuid_ne_nil`;
@@ -32,6 +35,25 @@ theorem name_valid (s : Bytes) : validJavaName (javaCompatibleUsername s) := by
     · intro b hb
       obtain ⟨r, _, rfl⟩ := List.mem_map.mp hb
       exact normRune_allowed r
+
+/-- the profile name built by `onGameProfile`, for EVERY username format and EVERY gamertag — whatever
+    `fmt.Sprintf` returns for them (`sprintf` is universally quantified): 1..16 bytes from the allowed set -/
+theorem profile_name_valid (sprintf : Bytes → Bytes → Bytes) (format gamertag : Bytes) :
+    validJavaName (profileName sprintf format gamertag) := name_valid _
+
+/-- for a format `prefix%ssuffix` the name is the first 16 runes of prefix ++ gamertag ++ suffix, normalised:
+    literal characters of the format count against the 16 like the gamertag's do (no budget arithmetic) -/
+theorem profile_name_affix (sprintf : Bytes → Bytes → Bytes) (pre suf tag : Bytes)
+    (hs : sprintf (pre ++ [37, 115] ++ suf) tag = pre ++ tag ++ suf) :
+    profileName sprintf (pre ++ [37, 115] ++ suf) tag = javaCompatibleUsername (pre ++ tag ++ suf) := by
+  unfold profileName
+  have : (pre ++ [37, 115] ++ suf).isEmpty = false := by
+    cases pre <;> simp
+  rw [this, hs]; rfl
+
+/-- the same (format, gamertag) always yields the same name: no hidden state -/
+theorem profile_name_deterministic (sprintf : Bytes → Bytes → Bytes) (f1 f2 t1 t2 : Bytes)
+    (hf : f1 = f2) (ht : t1 = t2) : profileName sprintf f1 t1 = profileName sprintf f2 t2 := by rw [hf, ht]
 
 /-- functional description: first 16 runes, each kept if allowed and replaced by `_` otherwise -/
 theorem name_shape (s : Bytes) :
@@ -133,6 +155,9 @@ example : javaCompatibleUsername ".玩家 One".toUTF8.toList = "____One".toUTF8.
 example : javaCompatibleUsername ".abcdefghijklmnop".toUTF8.toList = "_abcdefghijklmno".toUTF8.toList := by decide +kernel
 example : javaCompatibleUsername [] = [95] := by decide +kernel
 example : validJavaName "Bedrock_Player".toUTF8.toList := by decide +kernel
+example : profileName (fun f t => (simpleSprintf f t).getD t) "[Bedrock-Player]%s_BE".toUTF8.toList "Steve".toUTF8.toList
+    = "_Bedrock_Player_".toUTF8.toList := by decide +kernel
+example : simpleSprintf "[BE]%s!".toUTF8.toList "x X".toUTF8.toList = some "[BE]x X!".toUTF8.toList := by decide +kernel
 example : toHex (javaUuid 2535432196048835) = "875d5dd151455874a7d539177814b2ac" := by decide +kernel
 example : javaUuid 1 ≠ javaUuid 2 := by decide +kernel
 
